@@ -441,35 +441,210 @@ Proof.
     unfold is_ident_start, is_letter, is_ws in *. lia.
 Qed.
 
-Lemma text_head ts : Forall (fun t => simple_tok t = true) ts ->
+(** ** Triple-quoted literals:  qqq body qqq  *)
+Lemma u_scan_long f q raw s n : scan_long (S f) q raw s n =
+  match s with
+  | a :: b :: c :: _ =>
+      if ((a =? q) && (b =? q) && (c =? q))%N then Some (3 + n)%nat
+      else if (a =? 92)%N && negb raw then
+        match esc_len (tl s) with
+        | Some k => scan_long f q raw (skipn k (tl s)) (S (k + n))
+        | None => None
+        end
+      else if raw && ((a =? 0) || (a =? 1114111))%N then None
+      else scan_long f q raw (tl s) (S n)
+  | _ => None
+  end.
+Proof. reflexivity. Qed.
+
+Lemma scan_long_ok f : forall q body n rest f', body_ok f q body = true -> f <= f' ->
+  scan_long (S f') q false (body ++ q :: q :: q :: rest) n = Some (3 + (length body + n)).
+Proof.
+  induction f as [|f IH]; intros q body n rest f' Hb Hf; [discriminate|].
+  destruct body as [|c r].
+  - cbn [app length]. rewrite u_scan_long. now rewrite !N.eqb_refl.
+  - cbn [body_ok] in Hb. destruct (c =? q)%N eqn:Ecq; [discriminate|].
+    destruct ((c =? 10) || (c =? 13))%N; [discriminate|].
+    destruct f' as [|f']; [lia|].
+    (* expose three elements for the scanner's lookahead *)
+    assert (E3 : exists b d t, r ++ q :: q :: q :: rest = b :: d :: t).
+    { destruct r as [|b [|d t]]; cbn [app]; eauto. }
+    destruct E3 as (b & d & t & E3).
+    cbn [app]. rewrite u_scan_long, E3. rewrite Ecq. cbn [andb negb tl]. rewrite <- E3.
+    destruct (c =? 92)%N; cbn [andb].
+    + destruct (esc_len r) as [k|] eqn:E; [|discriminate].
+      destruct (esc_len_app r (q :: q :: q :: rest) k E) as [E' Hk]. rewrite E'.
+      rewrite skipn_app. replace (k - length r) with 0 by lia. cbn [skipn].
+      rewrite (IH q (skipn k r) (S (k + n)) rest f' Hb ltac:(lia)). rewrite skipn_length. cbn [length]. f_equal. lia.
+    + rewrite (IH q r (S n) rest f' Hb ltac:(lia)). cbn [length]. f_equal. lia.
+Qed.
+
+Lemma string_len_lit3 q body rest : (q = 34 \/ q = 39)%N -> body_ok (S (length body)) q body = true ->
+  string_len false ((q :: q :: q :: body ++ [q; q; q]) ++ 32%N :: rest) = Some (length (q :: q :: q :: body ++ [q; q; q])).
+Proof.
+  intros Hq Hb.
+  assert (Hqq : ((q =? 34) || (q =? 39))%N = true) by (destruct Hq as [-> | ->]; reflexivity).
+  assert (Es : (q :: q :: q :: body ++ [q; q; q]) ++ 32%N :: rest = q :: q :: q :: body ++ q :: q :: q :: 32%N :: rest)
+    by (cbn [app]; rewrite <- app_assoc; reflexivity).
+  rewrite Es. unfold string_len. rewrite Hqq.
+  cbn [scan_short]. rewrite !N.eqb_refl. cbn [andb option_map].
+  rewrite (scan_long_ok (S (length body)) q body 0 (32%N :: rest) _ Hb)
+    by (cbn [length]; rewrite app_length; cbn [length]; lia).
+  cbn [option_map length]. rewrite app_length. cbn [length]. f_equal. lia.
+Qed.
+
+Lemma lex_quoted q t' rest : (q = 34 \/ q = 39)%N ->
+  string_len false ((q :: t') ++ 32%N :: rest) = Some (length (q :: t')) ->
+  lex_one ((q :: t') ++ 32%N :: rest) = Some (Some (TString (q :: t')), 32%N :: rest).
+Proof.
+  intros Hq SL.
+  assert (Hnb : ((q =? ch "b") || (q =? ch "B"))%N = false) by (destruct Hq as [-> | ->]; reflexivity).
+  assert (Hnr : ((q =? ch "r") || (q =? ch "R"))%N = false) by (destruct Hq as [-> | ->]; reflexivity).
+  destruct (take_lit (q :: t') rest) as [T1 T2].
+  cbn [app] in *. unfold lex_one, bytes_tok_len, string_tok_len. rewrite Hnb, Hnr, SL, T1, T2. reflexivity.
+Qed.
+
+Lemma lex_string3 q body rest : (q = 34 \/ q = 39)%N -> body_ok (S (length body)) q body = true ->
+  lex_one ((q :: q :: q :: body ++ [q; q; q]) ++ 32%N :: rest) =
+  Some (Some (TString (q :: q :: q :: body ++ [q; q; q])), 32%N :: rest).
+Proof. intros Hq Hb. apply lex_quoted; [exact Hq|]. now apply string_len_lit3. Qed.
+
+Lemma lex_bytes_quoted p q t' rest : (p = ch "b" \/ p = ch "B")%N -> (q = 34 \/ q = 39)%N ->
+  string_len false ((q :: t') ++ 32%N :: rest) = Some (length (q :: t')) ->
+  lex_one ((p :: q :: t') ++ 32%N :: rest) = Some (Some (TBytes (p :: q :: t')), 32%N :: rest).
+Proof.
+  intros Hp Hq SL.
+  assert (Hpb : ((p =? ch "b") || (p =? ch "B"))%N = true) by (destruct Hp as [-> | ->]; reflexivity).
+  assert (Hnr : ((q =? ch "r") || (q =? ch "R"))%N = false) by (destruct Hq as [-> | ->]; reflexivity).
+  destruct (take_lit (p :: q :: t') rest) as [T1 T2].
+  cbn [app] in *. unfold lex_one, bytes_tok_len, string_tok_len. rewrite Hpb, Hnr, SL. cbn [option_map length] in *. rewrite T1, T2. reflexivity.
+Qed.
+
+(** ** Raw literals:  r q body q  and  r qqq body qqq  *)
+Definition raw_ok1 (q : N) (s : str) : bool :=
+  forallb (fun c => negb ((c =? q) || (c =? 10) || (c =? 13))%N) s.
+Definition raw_ok3 (q : N) (s : str) : bool :=
+  forallb (fun c => negb ((c =? q) || (c =? 0) || (c =? 1114111))%N) s.
+
+Lemma scan_short_raw q body rest : forall n f, raw_ok1 q body = true -> length body <= f ->
+  scan_short (S f) q true (body ++ q :: rest) n = Some (S (length body + n)).
+Proof.
+  induction body as [|c r IH]; intros n f Hb Hf.
+  - cbn [app scan_short length]. now rewrite N.eqb_refl.
+  - cbn [raw_ok1 forallb] in Hb. apply andb_prop in Hb as [Hc Hr]. apply Bool.negb_true_iff in Hc.
+    apply Bool.orb_false_iff in Hc as [Hc H13]. apply Bool.orb_false_iff in Hc as [Hcq H10].
+    cbn [length] in Hf. destruct f as [|f]; [lia|].
+    cbn [app]. change (scan_short (S (S f)) q true (c :: r ++ q :: rest) n) with
+      (if (c =? q)%N then Some (S n)
+       else if ((c =? 10) || (c =? 13))%N then None
+       else if (c =? 92)%N && negb true then
+              match esc_len (r ++ q :: rest) with
+              | Some k => scan_short (S f) q true (skipn k (r ++ q :: rest)) (S (k + n))
+              | None => None end
+       else scan_short (S f) q true (r ++ q :: rest) (S n)).
+    rewrite Hcq, H10, H13. cbn [orb negb]. rewrite Bool.andb_false_r.
+    rewrite (IH (S n) f Hr ltac:(lia)). cbn [length]. f_equal. lia.
+Qed.
+
+Lemma scan_long_raw q body rest : forall n f, raw_ok3 q body = true -> length body <= f ->
+  scan_long (S f) q true (body ++ q :: q :: q :: rest) n = Some (3 + (length body + n)).
+Proof.
+  induction body as [|c r IH]; intros n f Hb Hf.
+  - cbn [app length]. rewrite u_scan_long. now rewrite !N.eqb_refl.
+  - cbn [raw_ok3 forallb] in Hb. apply andb_prop in Hb as [Hc Hr]. apply Bool.negb_true_iff in Hc.
+    apply Bool.orb_false_iff in Hc as [Hc Hmax]. apply Bool.orb_false_iff in Hc as [Hcq H0].
+    cbn [length] in Hf. destruct f as [|f]; [lia|].
+    assert (E3 : exists b d t, r ++ q :: q :: q :: rest = b :: d :: t).
+    { destruct r as [|b [|d t]]; cbn [app]; eauto. }
+    destruct E3 as (b & d & t & E3).
+    cbn [app]. rewrite u_scan_long, E3. rewrite Hcq. cbn [andb negb tl]. rewrite Bool.andb_false_r, H0, Hmax. cbn [orb].
+    rewrite <- E3. rewrite (IH (S n) f Hr ltac:(lia)). cbn [length]. f_equal. lia.
+Qed.
+
+Lemma string_len_raw1 q body rest : (q = 34 \/ q = 39)%N -> raw_ok1 q body = true ->
+  string_len true ((q :: body ++ [q]) ++ 32%N :: rest) = Some (length (q :: body ++ [q])).
+Proof.
+  intros Hq Hb.
+  assert (Hqq : ((q =? 34) || (q =? 39))%N = true) by (destruct Hq as [-> | ->]; reflexivity).
+  assert (Es : (q :: body ++ [q]) ++ 32%N :: rest = q :: body ++ q :: 32%N :: rest)
+    by (cbn [app]; rewrite <- app_assoc; reflexivity).
+  rewrite Es. unfold string_len. rewrite Hqq.
+  rewrite (scan_short_raw q body (32%N :: rest) 0 _ Hb) by (cbn [length]; rewrite app_length; cbn [length]; lia).
+  cbn [option_map]. rewrite Nat.add_0_r.
+  assert (L : match body ++ q :: 32%N :: rest with
+              | q2 :: q3 :: r3 => if ((q2 =? q) && (q3 =? q))%N
+                                  then option_map (fun k => 3 + k) (scan_long (S (length (q :: body ++ q :: 32%N :: rest))) q true r3 0)
+                                  else None
+              | _ => None end = None).
+  { destruct body as [|c r].
+    - cbn [app]. rewrite N.eqb_refl. replace (32 =? q)%N with false by (destruct Hq as [-> | ->]; reflexivity). reflexivity.
+    - cbn [app]. cbn [raw_ok1 forallb] in Hb. apply andb_prop in Hb as [Hc _]. apply Bool.negb_true_iff in Hc.
+      apply Bool.orb_false_iff in Hc as [Hc _]. apply Bool.orb_false_iff in Hc as [Hcq _]. rewrite Hcq.
+      destruct (r ++ q :: 32%N :: rest); reflexivity. }
+  rewrite L. cbn [length]. rewrite app_length. cbn [length]. f_equal. lia.
+Qed.
+
+Lemma string_len_raw3 q body rest : (q = 34 \/ q = 39)%N -> raw_ok3 q body = true ->
+  string_len true ((q :: q :: q :: body ++ [q; q; q]) ++ 32%N :: rest) = Some (length (q :: q :: q :: body ++ [q; q; q])).
+Proof.
+  intros Hq Hb.
+  assert (Hqq : ((q =? 34) || (q =? 39))%N = true) by (destruct Hq as [-> | ->]; reflexivity).
+  assert (Es : (q :: q :: q :: body ++ [q; q; q]) ++ 32%N :: rest = q :: q :: q :: body ++ q :: q :: q :: 32%N :: rest)
+    by (cbn [app]; rewrite <- app_assoc; reflexivity).
+  rewrite Es. unfold string_len. rewrite Hqq.
+  cbn [scan_short]. rewrite !N.eqb_refl. cbn [andb option_map].
+  rewrite (scan_long_raw q body (32%N :: rest) 0 _ Hb) by (cbn [length]; rewrite app_length; cbn [length]; lia).
+  cbn [option_map length]. rewrite app_length. cbn [length]. f_equal. lia.
+Qed.
+
+Lemma lex_raw p q t' rest : (p = ch "r" \/ p = ch "R")%N -> (q = 34 \/ q = 39)%N ->
+  string_len true ((q :: t') ++ 32%N :: rest) = Some (length (q :: t')) ->
+  lex_one ((p :: q :: t') ++ 32%N :: rest) = Some (Some (TString (p :: q :: t')), 32%N :: rest).
+Proof.
+  intros Hp Hq SL.
+  assert (Hnb : ((p =? ch "b") || (p =? ch "B"))%N = false) by (destruct Hp as [-> | ->]; reflexivity).
+  assert (Hpr : ((p =? ch "r") || (p =? ch "R"))%N = true) by (destruct Hp as [-> | ->]; reflexivity).
+  destruct (take_lit (p :: q :: t') rest) as [T1 T2].
+  cbn [app] in *. unfold lex_one, bytes_tok_len, string_tok_len. rewrite Hnb, Hpr, SL. cbn [option_map length] in *. rewrite T1, T2. reflexivity.
+Qed.
+
+(** what the text round trip needs of a token: its text starts with a non-blank character and,
+    followed by a space, lexes back as exactly that token *)
+Definition lexable (t : tk) : Prop :=
+  (exists c r, tok_text t = c :: r /\ is_ws c = false) /\
+  forall rest, lex_one (tok_text t ++ 32%N :: rest) = Some (Some t, 32%N :: rest).
+Lemma simple_lexable t : simple_tok t = true -> lexable t.
+Proof. intros H. split; [now apply tok_text_head|intros rest; now apply lex_simple]. Qed.
+
+Lemma text_head ts : Forall lexable ts ->
   match text ts with c :: _ => is_ws c = false | [] => True end.
 Proof.
   intros H. destruct H as [|t ts Ht _]; [exact I|]. cbn [text flat_map].
-  destruct (tok_text_head t Ht) as (c & r & -> & Hc). exact Hc.
+  destruct Ht as [(c & r & -> & Hc) _]. exact Hc.
 Qed.
 
-Lemma lex_text ts : Forall (fun t => simple_tok t = true) ts -> forall f acc, 2 * length ts <= f ->
+Lemma lex_text ts : Forall lexable ts -> forall f acc, 2 * length ts <= f ->
   lex_fuel f (text ts) acc = Some (rev' acc ++ ts).
 Proof.
   induction 1 as [|t ts Ht Hts IH]; intros f acc Hf.
   - cbn [text flat_map]. destruct f; cbn [lex_fuel]; now rewrite app_nil_r.
   - cbn [length] in Hf. destruct f as [|[|f]]; try lia.
     change (text (t :: ts)) with ((tok_text t ++ [32%N]) ++ text ts). rewrite <- app_assoc. cbn [app].
-    destruct (tok_text_head t Ht) as (c & r & Et & _).
+    destruct Ht as [(c & r & Et & _) Hlex].
     assert (Hl : lex_fuel (S (S f)) (tok_text t ++ 32%N :: text ts) acc = lex_fuel (S f) (32%N :: text ts) (t :: acc)).
     { rewrite Et. cbn [app lex_fuel]. change (c :: r ++ 32%N :: text ts) with ((c :: r) ++ 32%N :: text ts).
-      rewrite <- Et, (lex_simple t (text ts) Ht). reflexivity. }
+      rewrite <- Et, (Hlex (text ts)). reflexivity. }
     rewrite Hl. cbn [lex_fuel]. rewrite (lex_space (text ts) (text_head ts Hts)).
     rewrite IH by lia. unfold rev'. rewrite <- !rev_alt. cbn [rev]. now rewrite <- app_assoc.
 Qed.
 
-Lemma text_len ts : Forall (fun t => simple_tok t = true) ts -> 2 * length ts <= length (text ts).
+Lemma text_len ts : Forall lexable ts -> 2 * length ts <= length (text ts).
 Proof.
   induction 1 as [|t ts Ht _ IH]; [cbn; lia|]. cbn [text flat_map length]. rewrite !app_length.
-  destruct (tok_text_head t Ht) as (c & r & -> & _). cbn [length]. fold (text ts). lia.
+  destruct Ht as [(c & r & -> & _) _]. cbn [length]. fold (text ts). lia.
 Qed.
 
-Theorem lex_roundtrip ts : Forall (fun t => simple_tok t = true) ts -> lex (text ts) = Some ts.
+Theorem lex_roundtrip ts : Forall lexable ts -> lex (text ts) = Some ts.
 Proof.
   intros H. unfold lex. rewrite (lex_text ts H); [reflexivity|]. pose proof (text_len ts H). lia.
 Qed.
@@ -479,8 +654,8 @@ Fixpoint ids_ok (t : st) : Prop :=
   let all := (fix go (l : list st) : Prop := match l with [] => True | r :: l' => ids_ok r /\ go l' end) in
   match t with
   | SId x => ident_okb x = true
-  | SLit (LStr t _) => simple_tok (TString t) = true
-  | SLit (LBytes t _) => simple_tok (TBytes t) = true
+  | SLit (LStr t _) => lexable (TString t)
+  | SLit (LBytes t _) => lexable (TBytes t)
   | SLit _ => True
   | SSel a f => ids_ok a /\ ident_okb f = true
   | SIdx a i => ids_ok a /\ ids_ok i
@@ -496,22 +671,24 @@ Fixpoint ids_ok (t : st) : Prop :=
   | SCond c a b => ids_ok c /\ ids_ok a /\ ids_ok b
   end.
 
-Definition Simple (ts : list tk) : Prop := Forall (fun t => simple_tok t = true) ts.
+Definition Simple (ts : list tk) : Prop := Forall lexable ts.
 
 Lemma simple_app a b : Simple a -> Simple b -> Simple (a ++ b).
 Proof. intros Ha Hb. apply Forall_app. split; assumption. Qed.
 Lemma simple_tk_at l t : Simple (raw t) -> Simple (tk_at l t).
 Proof.
   intros H. unfold tk_at. destruct (l <=? prec t); [exact H|].
-  constructor; [reflexivity|]. apply simple_app; [exact H|]. constructor; [reflexivity|constructor].
+  constructor; [now apply simple_lexable|]. apply simple_app; [exact H|]. constructor; [now apply simple_lexable|constructor].
 Qed.
 Lemma simple_repeat t n : simple_tok t = true -> Simple (repeat t n).
-Proof. intros H. induction n; cbn [repeat]; constructor; auto. Qed.
+Proof. intros H. apply simple_lexable in H. induction n; cbn [repeat]; constructor; auto. Qed.
 
 Lemma simple_one t : simple_tok t = true -> Simple [t].
+Proof. intros H. constructor; [now apply simple_lexable|constructor]. Qed.
+Lemma lexable_one t : lexable t -> Simple [t].
 Proof. intros H. constructor; [exact H|constructor]. Qed.
 Lemma simple_cons t ts : simple_tok t = true -> Simple ts -> Simple (t :: ts).
-Proof. intros H Hs. constructor; assumption. Qed.
+Proof. intros H Hs. constructor; [now apply simple_lexable|assumption]. Qed.
 
 Lemma simple_commas l : Forall (fun a => Simple (raw a)) l -> Simple (commas l).
 Proof.
@@ -525,9 +702,10 @@ Proof.
   destruct l; [constructor|]. apply simple_cons; [reflexivity|exact IH].
 Qed.
 
-Lemma simple_lit l : wf_lit l = true -> ids_ok (SLit l) -> simple_tok (lit_tk l) = true.
+Lemma simple_lit l : wf_lit l = true -> ids_ok (SLit l) -> lexable (lit_tk l).
 Proof.
-  destruct l as [z|z|[]| |t s|t b]; cbn [wf_lit lit_tk ids_ok]; intros W I; try reflexivity; try exact I; cbn [simple_tok].
+  destruct l as [z|z|[]| |t s|t b]; cbn [wf_lit lit_tk ids_ok]; intros W I; try exact I;
+    apply simple_lexable; try reflexivity; cbn [simple_tok].
   - apply andb_prop in W as [W0 _]. destruct (nat_digits_ok z ltac:(lia)) as (_ & H2 & H3).
     rewrite H2. now destruct (nat_digits z).
   - assert (Hz : (0 <= z)%Z) by (unfold in_u64 in W; lia).
@@ -539,8 +717,8 @@ Qed.
 Lemma raw_simple t : wf_st t -> ids_ok t -> Simple (raw t).
 Proof.
   induction t using st_ind'; cbn [wf_st ids_ok]; intros W I.
-  - constructor; [exact I|constructor].
-  - cbn [raw]. apply simple_one. now apply simple_lit.
+  - constructor; [now apply simple_lexable|constructor].
+  - cbn [raw]. apply lexable_one. now apply simple_lit.
   - destruct I as [Ia If]. cbn [raw]. fold (tk_at 7 t). apply simple_app; [apply simple_tk_at; auto|].
     apply simple_cons; [reflexivity|]. now apply simple_one.
   - destruct W as [Wa Wi]. destruct I as [Ia Ii]. cbn [raw]. fold (tk_at 7 t1).
@@ -567,25 +745,25 @@ Proof.
   - destruct W as [W _]. cbn [raw]. fold (tk_at 7 t). apply simple_app; [now apply (simple_repeat TMinus)|]. apply simple_tk_at. now apply IHt.
   - destruct W as (Wo & Wa & Wb). destruct I as [Ia Ib]. cbn [raw]. fold (tk_at 5 t1). fold (tk_at 6 t2).
     apply simple_app; [apply simple_tk_at; auto|]. apply simple_app; [|apply simple_tk_at; auto].
-    constructor; [|constructor]. destruct op; cbn in Wo; try congruence; reflexivity.
+    apply simple_one. destruct op; cbn in Wo; try congruence; reflexivity.
   - destruct W as (Wo & Wa & Wb). destruct I as [Ia Ib]. cbn [raw]. fold (tk_at 4 t1). fold (tk_at 5 t2).
     apply simple_app; [apply simple_tk_at; auto|]. apply simple_app; [|apply simple_tk_at; auto].
-    constructor; [|constructor]. destruct op; cbn in Wo; try congruence; reflexivity.
+    apply simple_one. destruct op; cbn in Wo; try congruence; reflexivity.
   - destruct W as (Wo & Wa & Wb). destruct I as [Ia Ib]. cbn [raw]. fold (tk_at 3 t1). fold (tk_at 4 t2).
     apply simple_app; [apply simple_tk_at; auto|]. apply simple_app; [|apply simple_tk_at; auto].
-    constructor; [|constructor]. destruct op; cbn in Wo; try congruence; reflexivity.
+    apply simple_one. destruct op; cbn in Wo; try congruence; reflexivity.
   - destruct W as (Wa & _ & Wrs). destruct I as [Ia Irs]. rewrite raw_and.
     apply simple_app; [apply simple_tk_at; auto|].
     induction H as [|r rs Hr _ IH]; [constructor|]. destruct Wrs as [Wr Wrs]. destruct Irs as [Ir Irs].
-    cbn [flat_map]. apply simple_app; [|now apply IH]. constructor; [reflexivity|]. apply simple_tk_at. auto.
+    cbn [flat_map]. apply simple_app; [|now apply IH]. apply simple_cons; [reflexivity|]. apply simple_tk_at. auto.
   - destruct W as (Wa & _ & Wrs). destruct I as [Ia Irs]. rewrite raw_or.
     apply simple_app; [apply simple_tk_at; auto|].
     induction H as [|r rs Hr _ IH]; [constructor|]. destruct Wrs as [Wr Wrs]. destruct Irs as [Ir Irs].
-    cbn [flat_map]. apply simple_app; [|now apply IH]. constructor; [reflexivity|]. apply simple_tk_at. auto.
+    cbn [flat_map]. apply simple_app; [|now apply IH]. apply simple_cons; [reflexivity|]. apply simple_tk_at. auto.
   - destruct W as (Wc & Wa & Wb). destruct I as (Ic & Ia & Ib). cbn [raw]. fold (tk_at 1 t1). fold (tk_at 1 t2).
-    apply simple_app; [apply simple_tk_at; auto|]. apply simple_app; [constructor; [reflexivity|constructor]|].
-    apply simple_app; [apply simple_tk_at; auto|]. apply simple_app; [constructor; [reflexivity|constructor]|auto].
-  - cbn [raw]. constructor; [reflexivity|]. apply simple_app; [auto|constructor; [reflexivity|constructor]].
+    apply simple_app; [apply simple_tk_at; auto|]. apply simple_app; [now apply simple_one|].
+    apply simple_app; [apply simple_tk_at; auto|]. apply simple_app; [now apply simple_one|auto].
+  - cbn [raw]. apply simple_cons; [reflexivity|]. apply simple_app; [auto|now apply simple_one].
 Qed.
 
 (** ** From source text to the tree *)
@@ -604,28 +782,96 @@ Proof.
   destruct Hq as [-> | ->]; reflexivity.
 Qed.
 
+Lemma quote_not_ws q : (q = 34 \/ q = 39)%N -> is_ws q = false.
+Proof. intros [-> | ->]; reflexivity. Qed.
+
+(** every quoting style gives a lexable token *)
+Lemma lexable_str1 q body : (q = 34 \/ q = 39)%N -> body_ok (S (length body)) q body = true ->
+  lexable (TString (q :: body ++ [q])).
+Proof. intros Hq Hb. apply simple_lexable. cbn [simple_tok]. now apply quoted_lit. Qed.
+Lemma lexable_str3 q body : (q = 34 \/ q = 39)%N -> body_ok (S (length body)) q body = true ->
+  lexable (TString (q :: q :: q :: body ++ [q; q; q])).
+Proof.
+  intros Hq Hb. split; [eexists; eexists; split; [reflexivity|now apply quote_not_ws]|].
+  intros rest. now apply lex_string3.
+Qed.
+Lemma lexable_bytes1 p q body : (p = ch "b" \/ p = ch "B")%N -> (q = 34 \/ q = 39)%N ->
+  body_ok (S (length body)) q body = true -> lexable (TBytes (p :: q :: body ++ [q])).
+Proof.
+  intros Hp Hq Hb. split; [eexists; eexists; split; [reflexivity|destruct Hp as [-> | ->]; reflexivity]|].
+  intros rest. apply (lex_bytes_quoted p q (body ++ [q]) rest Hp Hq).
+  replace ((q :: body ++ [q]) ++ 32%N :: rest) with (q :: body ++ q :: 32%N :: rest) by (cbn [app]; now rewrite <- app_assoc).
+  rewrite (string_len_lit q body rest Hq Hb). cbn [length]. rewrite app_length. cbn [length]. f_equal. lia.
+Qed.
+Lemma lexable_bytes3 p q body : (p = ch "b" \/ p = ch "B")%N -> (q = 34 \/ q = 39)%N ->
+  body_ok (S (length body)) q body = true -> lexable (TBytes (p :: q :: q :: q :: body ++ [q; q; q])).
+Proof.
+  intros Hp Hq Hb. split; [eexists; eexists; split; [reflexivity|destruct Hp as [-> | ->]; reflexivity]|].
+  intros rest. apply (lex_bytes_quoted p q (q :: q :: body ++ [q; q; q]) rest Hp Hq). now apply string_len_lit3.
+Qed.
+Lemma lexable_raw1 p q body : (p = ch "r" \/ p = ch "R")%N -> (q = 34 \/ q = 39)%N ->
+  raw_ok1 q body = true -> lexable (TString (p :: q :: body ++ [q])).
+Proof.
+  intros Hp Hq Hb. split; [eexists; eexists; split; [reflexivity|destruct Hp as [-> | ->]; reflexivity]|].
+  intros rest. apply (lex_raw p q (body ++ [q]) rest Hp Hq). now apply string_len_raw1.
+Qed.
+Lemma lexable_raw3 p q body : (p = ch "r" \/ p = ch "R")%N -> (q = 34 \/ q = 39)%N ->
+  raw_ok3 q body = true -> lexable (TString (p :: q :: q :: q :: body ++ [q; q; q])).
+Proof.
+  intros Hp Hq Hb. split; [eexists; eexists; split; [reflexivity|destruct Hp as [-> | ->]; reflexivity]|].
+  intros rest. apply (lex_raw p q (q :: q :: body ++ [q; q; q]) rest Hp Hq). now apply string_len_raw3.
+Qed.
+
+Lemma compile_str_token tok s : decode_string tok = Some s -> lexable (TString tok) ->
+  compile (text [TString tok]) = CExpr (ELit (VStr s)).
+Proof.
+  intros D L. apply (compile_roundtrip (SLit (LStr tok s))).
+  - cbn [wf_st wf_lit]. rewrite D. now apply str_eqb_eq.
+  - exact L.
+Qed.
+Lemma compile_bytes_token tok b : decode_bytes tok = Some b -> lexable (TBytes tok) ->
+  compile (text [TBytes tok]) = CExpr (ELit (VBytes b)).
+Proof.
+  intros D L. apply (compile_roundtrip (SLit (LBytes tok b))).
+  - cbn [wf_st wf_lit]. rewrite D. now apply str_eqb_eq.
+  - exact L.
+Qed.
+
 Theorem string_literal_compiles q s ks body :
   (q = 34 \/ q = 39)%N -> forallb is_scalar s = true -> render q s ks = Some body ->
-  compile (text [TString (q :: body ++ [q])]) = CExpr (ELit (VStr s)).
+  compile (text [TString (q :: body ++ [q])]) = CExpr (ELit (VStr s)) /\
+  compile (text [TString (q :: q :: q :: body ++ [q; q; q])]) = CExpr (ELit (VStr s)).
 Proof.
-  intros Hq Hs Hr.
-  pose proof (string_roundtrip_short q s ks body Hq Hs Hr) as D.
-  apply (compile_roundtrip (SLit (LStr (q :: body ++ [q]) s))).
-  - cbn [wf_st wf_lit]. rewrite D. now apply str_eqb_eq.
-  - cbn [ids_ok simple_tok]. apply quoted_lit; [exact Hq|]. now apply (render_body_ok q s ks).
+  intros Hq Hs Hr. pose proof (render_body_ok q s ks body Hq Hr) as Hb. split.
+  - apply compile_str_token; [now apply (string_roundtrip_short q s ks)|now apply lexable_str1].
+  - apply compile_str_token; [now apply (string_roundtrip_long q s ks)|now apply lexable_str3].
 Qed.
 
 Theorem bytes_literal_compiles p q s ks body :
   (p = ch "b" \/ p = ch "B")%N -> (q = 34 \/ q = 39)%N -> forallb is_scalar s = true -> render q s ks = Some body ->
-  exists us, compile (text [TBytes (p :: q :: body ++ [q])]) = CExpr (ELit (VBytes (flat_map unit_bytes us))) /\
-             map unit_cp us = s.
+  (exists us, map unit_cp us = s /\
+     compile (text [TBytes (p :: q :: body ++ [q])]) = CExpr (ELit (VBytes (flat_map unit_bytes us)))) /\
+  (exists us, map unit_cp us = s /\
+     compile (text [TBytes (p :: q :: q :: q :: body ++ [q; q; q])]) = CExpr (ELit (VBytes (flat_map unit_bytes us)))).
 Proof.
-  intros Hp Hq Hs Hr.
+  intros Hp Hq Hs Hr. pose proof (render_body_ok q s ks body Hq Hr) as Hb.
   destruct (bytes_decode_short p q s ks body Hp Hq Hs Hr) as (us & D & Hu).
-  exists us. split; [|exact Hu].
-  apply (compile_roundtrip (SLit (LBytes (p :: q :: body ++ [q]) (flat_map unit_bytes us)))).
-  - cbn [wf_st wf_lit]. rewrite D. now apply str_eqb_eq.
-  - cbn [ids_ok simple_tok].
-    replace ((p =? ch "b") || (p =? ch "B"))%N with true by (destruct Hp as [-> | ->]; reflexivity).
-    apply quoted_lit; [exact Hq|]. now apply (render_body_ok q s ks).
+  destruct (bytes_decode_long p q s ks body Hp Hq Hs Hr) as (us' & D' & Hu').
+  split; [exists us|exists us']; (split; [assumption|]).
+  - apply compile_bytes_token; [exact D|now apply lexable_bytes1].
+  - apply compile_bytes_token; [exact D'|now apply lexable_bytes3].
+Qed.
+
+(** raw literals: the body verbatim *)
+Theorem raw_literal_compiles p q s :
+  (p = ch "r" \/ p = ch "R")%N -> (q = 34 \/ q = 39)%N ->
+  (raw_ok1 q s = true -> compile (text [TString (p :: q :: s ++ [q])]) = CExpr (ELit (VStr s))) /\
+  (raw_ok3 q s = true -> compile (text [TString (p :: q :: q :: q :: s ++ [q; q; q])]) = CExpr (ELit (VStr s))).
+Proof.
+  intros Hp Hq. split; intros Hb.
+  - apply compile_str_token; [|now apply lexable_raw1].
+    apply raw_verbatim_short; auto. destruct s as [|c r]; [exact I|].
+    cbn [raw_ok1 forallb] in Hb. apply andb_prop in Hb as [Hc _]. apply Bool.negb_true_iff in Hc.
+    apply Bool.orb_false_iff in Hc as [Hc _]. apply Bool.orb_false_iff in Hc as [Hc _]. now apply N.eqb_neq.
+  - apply compile_str_token; [|now apply lexable_raw3]. now apply raw_verbatim_long.
 Qed.
